@@ -529,6 +529,49 @@ pub fn run_check<S: Scenario>(scn: S, opts: &Opts) -> i32 {
     exit
 }
 
+/// Determinism dump: execute cases 0..n and print one line per case
+/// ("index digest fingerprint verdict-class"), in index order. Two dumps taken
+/// in different processes / with different worker counts must be identical.
+pub fn digests<S: Scenario>(scn: S, opts: &Opts) -> i32 {
+    let scn = Arc::new(scn);
+    let total = opts.runs_override.unwrap_or(1000);
+    let next = Arc::new(AtomicU64::new(0));
+    let out: Arc<Mutex<BTreeMap<u64, String>>> = Arc::new(Mutex::new(BTreeMap::new()));
+    let mut workers = Vec::new();
+    for _ in 0..opts.jobs {
+        let scn = scn.clone();
+        let next = next.clone();
+        let out = out.clone();
+        let (tier, seed) = (opts.tier, opts.seed);
+        workers.push(std::thread::spawn(move || loop {
+            let idx = next.fetch_add(1, Ordering::Relaxed);
+            if idx >= total {
+                break;
+            }
+            let cs = case_seed(seed, scn.id(), idx);
+            let mut rng = Rng::new(cs);
+            let case = scn.generate(&mut rng, tier, idx);
+            let line = match exec_case(&scn, &case, cs, false) {
+                Ok(ex) => format!(
+                    "{idx} {:016x} {:016x} {}",
+                    ex.totals.digest,
+                    ex.totals.fingerprint,
+                    ex.out.violation.map(|v| v.class).or(ex.out.harness_error.map(|h| format!("HARNESS:{h}"))).unwrap_or_else(|| "held".into())
+                ),
+                Err(e) => format!("{idx} ERROR {e}"),
+            };
+            out.lock().unwrap().insert(idx, line);
+        }));
+    }
+    for w in workers {
+        let _ = w.join();
+    }
+    for l in out.lock().unwrap().values() {
+        println!("{l}");
+    }
+    0
+}
+
 pub fn replay<S: Scenario>(scn: S, path: &str, quiet: bool) -> i32 {
     let scn = Arc::new(scn);
     let s = match std::fs::read_to_string(path) {
